@@ -1,7 +1,7 @@
 (* Dispatch.v -- op table: the single entry point used by the extracted driver and by cases.v *)
 From Coq Require Import String.
 From Coq Require Import List NArith ZArith Bool.
-From MPS Require Import Model.Bytes Model.Sx Model.Framing Model.DispatchC19 Model.DispatchSession Model.DispatchHandler Model.DispatchPaillier Model.DispatchPoly Model.DispatchPool Model.DispatchOT Model.DispatchRef Model.DispatchCbor Model.DispatchNonce Model.DispatchZK Model.DispatchTwoParty.
+From MPS Require Import Model.Bytes Model.Sx Model.Framing Model.DispatchC19 Model.DispatchSession Model.DispatchHandler Model.DispatchPaillier Model.DispatchPoly Model.DispatchPool Model.DispatchOT Model.DispatchRef Model.DispatchCbor Model.DispatchNonce Model.DispatchZK Model.DispatchTwoParty Model.DispatchSystem.
 Import ListNotations.
 
 Definition op_table : list (bytes * (sx -> option sx)) :=
@@ -9,7 +9,7 @@ Definition op_table : list (bytes * (sx -> option sx)) :=
     (str "c19.commit_input"%string, op_c19_commit_input);
     (str "c19.valid"%string, op_c19_valid);
     (str "c19.items"%string, op_c19_items)
-  ] ++ session_ops ++ handler_ops ++ paillier_ops ++ poly_ops ++ pool_ops ++ ot_ops ++ ref_ops ++ cbor_ops ++ nonce_ops ++ zk_ops ++ twoparty_ops.
+  ] ++ session_ops ++ handler_ops ++ paillier_ops ++ poly_ops ++ pool_ops ++ ot_ops ++ ref_ops ++ cbor_ops ++ nonce_ops ++ zk_ops ++ twoparty_ops ++ system_ops.
 
 Fixpoint lookup (name : bytes) (t : list (bytes * (sx -> option sx))) : option (sx -> option sx) :=
   match t with
